@@ -47,6 +47,30 @@ pub enum Scope {
     ExtensibleSequenceEmpty(&'static str),
 }
 
+/// ITU-T X.691 | ISO/IEC 8825-2:2015, chapter 11.9.3.4: the number of extension additions is a
+/// "normally small length": up to 64 as a zero bit and `n - 1` in 6 bits, beyond that as a one bit
+/// followed by the general length determinant of `n`
+fn write_number_of_ext_fields(buffer: &mut BitBuffer, n: u64) -> Result<(), Error> {
+    if n <= 64 {
+        buffer.write_normally_small_non_negative_whole_number(n - 1)
+    } else if n < LENGTH_16K {
+        buffer.write_bit(true)?;
+        buffer.write_length_determinant(None, None, n).map(drop)
+    } else {
+        Err(ErrorKind::UnsupportedOperation(format!("{n} extension fields")).into())
+    }
+}
+
+/// See [`write_number_of_ext_fields`]
+fn read_number_of_ext_fields(bits: &mut impl ScopedBitRead) -> Result<usize, Error> {
+    let n = if bits.read_bit()? {
+        bits.read_length_determinant(None, None)?
+    } else {
+        bits.read_non_negative_binary_integer(None, Some(63))? + 1
+    };
+    usize::try_from(n).map_err(|_| ErrorKind::ValueExceedsMaxInt.into())
+}
+
 impl Scope {
     #[inline]
     pub const fn exhausted(&self) -> bool {
@@ -110,9 +134,7 @@ impl Scope {
                     buffer.with_write_position_at(*ext_bit_pos, |b| b.write_bit(is_present))?;
                     if is_present {
                         // when we reach this point, there is never zero numbers of ext-fields
-                        buffer.write_normally_small_non_negative_whole_number(
-                            *number_of_ext_fields as u64 - 1,
-                        )?;
+                        write_number_of_ext_fields(buffer, *number_of_ext_fields as u64)?;
                         let pos = buffer.write_position;
                         for _ in 0..*number_of_ext_fields {
                             if let Err(e) = buffer.write_bit(true) {
@@ -199,12 +221,7 @@ impl Scope {
             } => {
                 if *calls_until_ext_bitfield == 0 {
                     if bits.with_read_position_at(*ext_bit_pos, |b| b.read_bit())? {
-                        let read_number_of_ext_fields = usize::try_from(
-                            bits.read_normally_small_length()?,
-                        )
-                        .ok()
-                        .and_then(|length| length.checked_add(1))
-                        .ok_or(ErrorKind::ValueExceedsMaxInt)?;
+                        let read_number_of_ext_fields = read_number_of_ext_fields(bits)?;
                         if read_number_of_ext_fields > *number_of_ext_fields {
                             #[cfg(feature = "descriptive-deserialize-errors")]
                             descriptions.push(ScopeDescription::warning(
@@ -969,10 +986,7 @@ impl<B: ScopedBitRead> UperReader<B> {
         if let Some(Scope::ExtensibleSequence { .. }) = &self.scope {
             // The extension flag is set, but not a single extension field is known locally,
             // so the header of the extension body has not been read yet
-            let number_of_ext_fields = usize::try_from(self.bits.read_normally_small_length()?)
-                .ok()
-                .and_then(|length| length.checked_add(1))
-                .ok_or(ErrorKind::ValueExceedsMaxInt)?;
+            let number_of_ext_fields = read_number_of_ext_fields(&mut self.bits)?;
             if self.bits.remaining() < number_of_ext_fields {
                 return Err(ErrorKind::EndOfStream.into());
             }
